@@ -1926,6 +1926,28 @@ def sx_items(xs):
     return out
 
 
+PAGE_RE = re.compile(r'const data = \{\s*"tree": \'(.*?)\',\s*"orthoxml": `(.*?)`,\s*"fam_data": (.*?)\n\s*\}\n', re.S)
+
+
+def page_fields(html):
+    """the three values the iHam viewer reads from the page (const data = {...})"""
+    m = PAGE_RE.search(html)
+    if m is None:
+        return None
+    return {'tree': m.group(1), 'orthoxml': m.group(2), 'fam_data': m.group(3)}
+
+
+def newick_names(nwk):
+    from ete3 import Tree
+    def go(n):
+        return [n.name] + [go(c) for c in n.children]
+    return go(Tree(nwk, format=8))
+
+
+def sx_tree_names(x):
+    return [str(x[0])] + [sx_tree_names(k) for k in x[1:]]
+
+
 def check_C12(ctx):
     Ls = loaded_stream(ctx, ctx.scale(250, 3000))
     plan = {}
@@ -1939,14 +1961,15 @@ def check_C12(ctx):
             hs = tops + ctx.rng.sample([o for o in hs if o not in tops], max(0, 10 - len(tops)))
         plan[id(L)] = hs
         prot = [[Q(g.unique_id), Q(str(g.prot_id))] for g in L.ham.extant_gene_map.values()]
-        return [['wf']] + [['export', o, prot] for o in hs]
+        return [['wf']] + [['export', o, prot] for o in hs] + [['page', o, prot] for o in hs]
     reps = analyze(Ls, cmds)
     for L, rep in zip(Ls, reps):
         if rep is None:
             continue
         d, ham = L.dump, L.ham
         nwk = ham.taxonomy.tree_str
-        for o, mrep in zip(plan[id(L)], rep[1:]):
+        n_h = len(plan[id(L)])
+        for o, mrep, prep in zip(plan[id(L)], rep[1:1 + n_h], rep[1 + n_h:]):
             h = d.obj[o]
             ctx.counts['exports'] += 1
             payload = {'case': case_json(L.case), 'hog': repr(h), 'hog_taxon': d.path[h.genome.taxon],
@@ -1982,9 +2005,13 @@ def check_C12(ctx):
                 except Exception as e:  # noqa
                     bad.append('re-loading the export fails: %s' % type(e).__name__)
             # the page
+            fields = None
             try:
                 vis = ham.create_iHam(h)
                 html = vis.HTML
+                fields = page_fields(html)
+                if fields is None:
+                    bad.append('iHam page: the tree / orthoxml / fam_data values are not where the viewer reads them')
                 if text not in html:
                     bad.append('iHam page does not embed the exported orthoXML')
                 if ham.taxonomy.get_newick_from_tree(h.genome.taxon) not in html:
@@ -2012,6 +2039,28 @@ def check_C12(ctx):
                     ctx.counts['exporter_layer_agree'] += 1
             except Exception as e:  # noqa
                 ctx.violation('exporter layer: model output unreadable (%s)' % type(e).__name__, dict(payload, layer='exporter'), no_input=True)
+            # correspondence, page layer: the three values the real page embeds against Page.iham_page
+            try:
+                if str(prep[0]) != 'ok':
+                    raise ValueError('model: ' + repr(prep))
+                m_tree = sx_tree_names(prep[1][0])
+                m_sp = sorted((str(sp[0]), tuple(sorted(str(g[1]) for g in sp[1:]))) for sp in prep[1][1][1][1:])
+                m_gr = canon_items(sx_items(prep[1][1][2][1:]))
+                m_fam = [(str(r_[0]), str(r_[1]), str(r_[2])) for r_ in prep[1][2]]
+                p_species, p_groups = parse_exported(fields['orthoxml'])
+                i_sp = sorted((sp, tuple(sorted(g['id'] for g in gs))) for sp, gs in p_species)
+                i_fam = [(str(r_['taxon']['species']), str(r_['protid']), str(r_['id'])) for r_ in json.loads(fields['fam_data'])]
+                i_tree = newick_names(fields['tree'])
+                diffs = [n_ for n_, a_, b_ in (('tree', m_tree, i_tree), ('orthoxml species', m_sp, i_sp),
+                                              ('orthoxml groups', m_gr, canon_items(p_groups)), ('fam_data', m_fam, i_fam)) if a_ != b_]
+                if diffs:
+                    ctx.violation('page layer: model and implementation disagree on %s; props/C12.v (c12_page_*) no longer tied to the code' % ', '.join(diffs),
+                                  dict(payload, layer='page', page_tree=fields['tree'], page_fam=fields['fam_data'][:1500],
+                                       model_tree=repr(m_tree), model_fam=repr(m_fam)[:1500]), no_input=True)
+                else:
+                    ctx.counts['page_layer_agree'] += 1
+            except Exception as e:  # noqa
+                ctx.violation('page layer: model output or page unreadable (%s)' % type(e).__name__, dict(payload, layer='page'), no_input=True)
 
 
 # ------------------------------------------------------------------ configurations (C13)
